@@ -186,6 +186,18 @@ pub fn run(a: &Args) {
             }
         }
     }
+    // long rows (beyond any prefix a heuristic might sample), smooth two-dimensional content so that each of the five types wins somewhere
+    for round in 0..(2 * scale) {
+        for method in 0..=5u8 {
+            for &bpp in &BPPS {
+                let len = (*rng.pick(&[1024usize, 1025, 1100, 2048, 3000, 5000]) / bpp).max(2) * bpp;
+                let kind = (round as usize + method as usize) % 4;
+                let prev: Vec<u8> = (0..len).map(|i| match kind { 0 => (i / bpp) as u8, 1 => ((i / bpp) * 3) as u8, 2 => ((i / (40 * bpp)) * 17) as u8, _ => rng.byte() }).collect();
+                let cur: Vec<u8> = (0..len).map(|i| match kind { 0 => (i / bpp) as u8 ^ 1, 1 => prev[i].wrapping_add((i / bpp) as u8), 2 => prev[i].wrapping_add(if i >= bpp { prev[i - bpp] } else { 0 }) , _ => prev[i].wrapping_add((i % 7) as u8) }).collect();
+                run_filter_case(&mut o, method, bpp, &prev, &cur);
+            }
+        }
+    }
     if a.tier == "thorough" {
         // exhaustive rows of <= 3 pixels over a 4-value alphabet for bpp 1 and 2
         let alpha = [0u8, 1, 128, 255];
